@@ -55,7 +55,7 @@ theorem takeBytes_append (a b : Str) : ∀ n, n = utf8Len a → takeBytes (a ++ 
 theorem inner_wrap (c d : Char) (mid : Str) (hc : u8len c = 1) (hd : u8len d = 1) :
     inner (c :: (mid ++ [d])) = some mid := by
   have hl : utf8Len (c :: (mid ++ [d])) = 1 + utf8Len mid + 1 := by
-    rw [utf8Len_cons, utf8Len_append, utf8Len_cons, utf8Len_nil, hc, hd]
+    rw [utf8Len_cons, utf8Len_append, utf8Len_cons, utf8Len_nil, hc, hd]; omega
   unfold inner
   rw [hl]
   have h1 : 1 + utf8Len mid + 1 ≥ 1 := by omega
@@ -224,7 +224,7 @@ theorem printNat_head (n : Nat) (hn : 0 < n) :
 
 theorem isCanonicalInt_printNat (n : Nat) : isCanonicalInt (printNat n) = true := by
   by_cases hn : n = 0
-  · subst hn; rfl
+  · subst hn; rw [printNat_lt (by omega)]; decide
   · obtain ⟨c, rest, e, h1, h2⟩ := printNat_head n (by omega)
     have hd := printNat_digits n
     rw [e] at hd ⊢
@@ -235,11 +235,40 @@ theorem isCanonicalInt_printNat (n : Nat) : isCanonicalInt (printNat n) = true :
         rw [List.all_eq_true]; intro x hx; exact hd x (by simp [hx])
       simp [h1, h2, this]
 
+theorem digitChar_of_digit {x : Char} (h1 : 48 ≤ x.toNat) (h2 : x.toNat ≤ 57) :
+    digitChar (x.toNat - 48) = x := by
+  have : 48 + (x.toNat - 48) = x.toNat := by omega
+  simp [digitChar, this, Char.ofNat_toNat]
+
+/-- extending a canonical prefix by digits keeps `print ∘ parse = id` -/
+theorem printNat_parseNat_extend (r : Str) : ∀ pre : Str, r.all isDigit = true →
+    printNat (parseNat pre) = pre → 1 ≤ parseNat pre →
+    printNat (parseNat (pre ++ r)) = pre ++ r := by
+  induction r with
+  | nil => intro pre _ h _; simpa using h
+  | cons x xs ih =>
+    intro pre hr h1 h2
+    simp only [List.all_cons, Bool.and_eq_true] at hr
+    have hx := hr.1
+    simp only [isDigit, Bool.and_eq_true, decide_eq_true_eq] at hx
+    have e : pre ++ x :: xs = (pre ++ [x]) ++ xs := by simp
+    rw [e]
+    apply ih (pre ++ [x]) hr.2
+    · rw [parseNat_append_single]
+      have hge : ¬ (parseNat pre * 10 + (x.toNat - 48) < 10) := by omega
+      rw [printNat_ge hge]
+      have hdiv : (parseNat pre * 10 + (x.toNat - 48)) / 10 = parseNat pre := by omega
+      have hmod : (parseNat pre * 10 + (x.toNat - 48)) % 10 = x.toNat - 48 := by omega
+      rw [hdiv, hmod, h1, digitChar_of_digit hx.1 hx.2]
+    · rw [parseNat_append_single]; omega
+
 /-- the canonical decimal text of a number is unique: a canonical digit string is the print of its value -/
 theorem printNat_parseNat_of_canonical (ds : Str) (h : isCanonicalInt ds = true) :
     printNat (parseNat ds) = ds := by
   by_cases h0 : ds = ['0']
-  · subst h0; rfl
+  · subst h0
+    have : parseNat ['0'] = 0 := by decide
+    rw [this, printNat_lt (by omega)]; decide
   · unfold isCanonicalInt at h
     simp only [h0, if_false] at h
     cases ds with
@@ -247,39 +276,117 @@ theorem printNat_parseNat_of_canonical (ds : Str) (h : isCanonicalInt ds = true)
     | cons c rest =>
       simp only [Bool.and_eq_true, decide_eq_true_eq] at h
       obtain ⟨⟨h1, h2⟩, h3⟩ := h
-      -- generalise: for every digit list `r`, print (parse (c :: r)) = c :: r and the value is ≥ 1
-      suffices H : ∀ r : Str, r.all isDigit = true →
-          printNat (parseNat (c :: r)) = c :: r ∧ 1 ≤ parseNat (c :: r) from (H rest h3).1
-      intro r
-      induction r using List.reverseRecOn with
-      | nil =>
-        intro _
-        have hv : parseNat [c] = c.toNat - 48 := by simp [parseNat]
-        have hc : c = digitChar (c.toNat - 48) := by
-          have : 48 + (c.toNat - 48) = c.toNat := by
-            simp only [decide_eq_true_eq] at h1; omega
-          simp [digitChar, this, Char.ofNat_toNat]
-        simp only [decide_eq_true_eq] at h1 h2
-        rw [hv, printNat_lt (by omega), ← hc]
-        exact ⟨rfl, by omega⟩
-      | append_singleton r x ih =>
-        intro hr
-        rw [List.all_append] at hr
-        simp only [Bool.and_eq_true, List.all_cons, List.all_nil, Bool.and_true] at hr
-        obtain ⟨ih1, ih2⟩ := ih hr.1
-        have hx := hr.2
-        simp only [isDigit, Bool.and_eq_true, decide_eq_true_eq] at hx
-        have e : c :: (r ++ [x]) = (c :: r) ++ [x] := rfl
-        rw [e, parseNat_append_single]
-        have hge : ¬ (parseNat (c :: r) * 10 + (x.toNat - 48) < 10) := by omega
-        rw [printNat_ge hge]
-        have hdiv : (parseNat (c :: r) * 10 + (x.toNat - 48)) / 10 = parseNat (c :: r) := by omega
-        have hmod : (parseNat (c :: r) * 10 + (x.toNat - 48)) % 10 = x.toNat - 48 := by omega
-        rw [hdiv, hmod, ih1]
-        have hxc : digitChar (x.toNat - 48) = x := by
-          have : 48 + (x.toNat - 48) = x.toNat := by omega
-          simp [digitChar, this, Char.ofNat_toNat]
-        rw [hxc]
-        exact ⟨rfl, by omega⟩
+      have hv : parseNat [c] = c.toNat - 48 := by simp [parseNat]
+      have := printNat_parseNat_extend rest [c] h3
+        (by rw [hv, printNat_lt (by omega), digitChar_of_digit (by omega) h2])
+        (by rw [hv]; omega)
+      simpa using this
+
+end Radix.AddrText
+
+namespace Radix.AddrText
+open Radix.Bech32 (Str Bytes utf8Len u8len)
+
+/-! ### RUID layout -/
+
+theorem ruidBody_facts (h : Str) (hl : h.length = 64) (hn : ∀ c ∈ h, c ≠ '-') :
+    (ruidBody h).length = 67 ∧ (ruidBody h)[16]? = some '-' ∧ (ruidBody h)[33]? = some '-' ∧
+    (ruidBody h)[50]? = some '-' ∧ (ruidBody h).filter (· ≠ '-') = h := by
+  have e1 : h = h.take 16 ++ h.drop 16 := (List.take_append_drop 16 h).symm
+  have e2 : h.drop 16 = (h.drop 16).take 16 ++ h.drop 32 := by
+    have := (List.take_append_drop 16 (h.drop 16)).symm
+    rwa [List.drop_drop] at this
+  have e3 : h.drop 32 = (h.drop 32).take 16 ++ h.drop 48 := by
+    have := (List.take_append_drop 16 (h.drop 32)).symm
+    rwa [List.drop_drop] at this
+  have e4 : (h.drop 48).take 16 = h.drop 48 := List.take_of_length_le (by simp [hl])
+  have la : (h.take 16).length = 16 := by simp [hl]
+  have lb : ((h.drop 16).take 16).length = 16 := by simp [hl]
+  have lc : ((h.drop 32).take 16).length = 16 := by simp [hl]
+  have ld : ((h.drop 48).take 16).length = 16 := by simp [hl]
+  have hf : ∀ l : Str, (∀ c ∈ l, c ∈ h) → l.filter (· ≠ '-') = l := by
+    intro l hlm
+    rw [List.filter_eq_self]
+    intro c hc
+    simpa using hn c (hlm c hc)
+  have ma : ∀ c ∈ h.take 16, c ∈ h := fun c hc => List.mem_of_mem_take hc
+  have mb : ∀ c ∈ (h.drop 16).take 16, c ∈ h := fun c hc => List.mem_of_mem_drop (List.mem_of_mem_take hc)
+  have mc : ∀ c ∈ (h.drop 32).take 16, c ∈ h := fun c hc => List.mem_of_mem_drop (List.mem_of_mem_take hc)
+  have md : ∀ c ∈ (h.drop 48).take 16, c ∈ h := fun c hc => List.mem_of_mem_drop (List.mem_of_mem_take hc)
+  refine ⟨?_, ?_, ?_, ?_, ?_⟩
+  · simp only [ruidBody, List.length_append, List.length_cons, la, lb, lc, ld]
+  · simp only [ruidBody]
+    rw [List.getElem?_append_right (by omega), la]; rfl
+  · simp only [ruidBody]
+    rw [List.getElem?_append_right (by omega), la]
+    show (_ :: _)[17]? = _
+    rw [List.getElem?_cons_succ, List.getElem?_append_right (by omega), lb]; rfl
+  · simp only [ruidBody]
+    rw [List.getElem?_append_right (by omega), la]
+    show (_ :: _)[34]? = _
+    rw [List.getElem?_cons_succ, List.getElem?_append_right (by omega), lb]
+    show (_ :: _)[17]? = _
+    rw [List.getElem?_cons_succ, List.getElem?_append_right (by omega), lc]; rfl
+  · have hd : (List.filter (fun x => decide (x ≠ '-')) ('-' :: ([] : Str))) = [] := by decide
+    simp only [ruidBody, List.filter_append, List.filter_cons, hf _ ma, hf _ mb, hf _ mc, hf _ md]
+    simp only [ne_eq, not_true_eq_false, decide_false, Bool.false_eq_true, if_false]
+    rw [e4]
+    conv => rhs; rw [e1, e2, e3]
+
+/-! ### parse ∘ print per id kind -/
+
+theorem isIdChar_ascii {c : Char} (h : isIdChar c = true) : c.toNat < 128 ∧ c ≠ ':' := by
+  unfold isIdChar at h
+  simp only [Bool.or_eq_true, Bool.and_eq_true, decide_eq_true_eq, beq_iff_eq] at h
+  refine ⟨by omega, ?_⟩
+  intro e; subst e
+  have : ':'.toNat = 58 := by decide
+  omega
+
+theorem parse_print_str (cs : Str) (hv : (LocalId.str cs).Valid) :
+    parseLocalId (printLocalId (.str cs)) = .ok (.str cs) := by
+  obtain ⟨h1, h2, h3⟩ := hv
+  have hasc : ∀ c ∈ cs, c.toNat < 128 := fun c hc => (isIdChar_ascii (List.all_eq_true.1 h3 c hc)).1
+  have hlen := utf8Len_ascii cs hasc
+  simp only [printLocalId, parseLocalId, startsWith_cons, endsWith_wrap, Bool.and_self, if_true]
+  rw [inner_wrap _ _ _ (by decide) (by decide)]
+  have hne : ¬ cs.length = 0 := by omega
+  have hle : ¬ cs.length > MAXLEN := by omega
+  simp [mkString, validateString, hlen, hne, hle, h3]
+
+theorem parse_print_int (n : Nat) (hv : (LocalId.int n).Valid) :
+    parseLocalId (printLocalId (.int n)) = .ok (.int n) := by
+  have hv' : n < 2 ^ 64 := hv
+  have hlt : utf8Len ('#' :: (printNat n ++ ['#'])) > 1 := by
+    rw [utf8Len_cons, utf8Len_append, utf8Len_cons, utf8Len_nil]
+    have := u8len_pos '#'; omega
+  simp only [printLocalId, parseLocalId, startsWith_ne '#' '<' _ (by decide), Bool.false_and,
+    Bool.false_eq_true, if_false, startsWith_cons, endsWith_wrap, Bool.and_self, hlt, decide_true, if_true]
+  rw [inner_wrap _ _ _ (by decide) (by decide)]
+  simp [isCanonicalInt_printNat, parseU64, parseNat_printNat, hv']
+
+theorem parse_print_bytes (b : Bytes) (hv : (LocalId.bytes b).Valid) :
+    parseLocalId (printLocalId (.bytes b)) = .ok (.bytes b) := by
+  obtain ⟨h1, h2⟩ := hv
+  have hne : ¬ b.length = 0 := by omega
+  have hle : ¬ b.length > MAXLEN := by omega
+  simp only [printLocalId, parseLocalId, startsWith_ne '[' '<' _ (by decide), startsWith_ne '[' '#' _ (by decide),
+    Bool.false_and, Bool.and_false, Bool.false_eq_true, if_false, startsWith_cons, endsWith_wrap, Bool.and_self, if_true]
+  rw [inner_wrap _ _ _ (by decide) (by decide)]
+  simp [hexDecode_hexEncode, mkBytes, validateBytes, hne, hle]
+
+theorem parse_print_ruid (b : Bytes) (hv : (LocalId.ruid b).Valid) :
+    parseLocalId (printLocalId (.ruid b)) = .ok (.ruid b) := by
+  have hv' : b.length = 32 := hv
+  have hl : (hexEncode b).length = 64 := by rw [hexEncode_length, hv']
+  have hch := hexEncode_chars b
+  obtain ⟨f1, f2, f3, f4, f5⟩ := ruidBody_facts (hexEncode b) hl (fun c hc => (hch c hc).2.1)
+  have hu : utf8Len (hexEncode b) = 64 := by
+    rw [utf8Len_ascii _ (fun c hc => (hch c hc).1), hl]
+  simp only [printLocalId, parseLocalId, startsWith_ne '{' '<' _ (by decide), startsWith_ne '{' '#' _ (by decide),
+    startsWith_ne '{' '[' _ (by decide),
+    Bool.false_and, Bool.and_false, Bool.false_eq_true, if_false, startsWith_cons, endsWith_wrap, Bool.and_self, if_true]
+  rw [inner_wrap _ _ _ (by decide) (by decide)]
+  simp [f1, f2, f3, f4, f5, hu, hexDecode_hexEncode, hv']
 
 end Radix.AddrText
